@@ -135,6 +135,13 @@ def receive(ck, agg, nn):
     for qc in ("FrameQueue", "FrameQueueFrag"):
         nn.model.opaque[P.method(S[qc], "enqueue").qualname] = net.sum_enqueue
     n = 0
+    addr_field = None
+    g = P.method(mix, "node_address", "get")
+    for x in ast.walk(g.node):
+        if isinstance(x, ast.Return) and isinstance(x.value, ast.Attribute):
+            addr_field = x.value.attr
+    if addr_field is None:
+        raise AnalysisError("node_address getter does not return a field")
     for mtype in (0, 1, 64, 65, 127):
         for am in (True, False):
             n += 1
@@ -171,7 +178,11 @@ def receive(ck, agg, nn):
                     def is_addr(x):
                         x = norm(x)
                         return isinstance(x, Sym) and isinstance(x.name, str) and x.name.split("#")[0] == "node._addr"
-                    to_self = pol_of(lambda e: any(is_to(x) for x in e.data[1]) and any(is_addr(x) for x in e.data[1]))
+                    def names_addr(e):
+                        # the operand reads the attribute that the node_address getter returns (its value may already be refined to a constant)
+                        return any(isinstance(x, ast.Attribute) and x.attr == addr_field and isinstance(x.value, ast.Name) and x.value.id == "self"
+                                   for x in [e.node.left] + list(e.node.comparators))
+                    to_self = pol_of(lambda e: any(is_to(x) for x in e.data[1]) and (any(is_addr(x) for x in e.data[1]) or names_addr(e)))
                     to_mc = pol_of(lambda e: any(is_to(x) for x in e.data[1]) and any(const_of(norm(x)) == MCAST for x in e.data[1]))
                     if e_here:
                         agg.add("R05.3", f, "a frame is queued only if it is addressed to this node or to the multicast address", to_self is True or to_mc is True,
